@@ -27,18 +27,20 @@ type Parked struct {
 type Sched struct {
 	// Hold is a goroutine parked inside a channel operation that the scenario keeps there across steps (HoldOp /
 	// Unhold): random releases and drains pass it over, and quiescence is the extended one while it is held.
-	Hold     *Parked
-	holdExt  bool
-	holdSite string
-	arrive   chan *Parked
-	Waiting  []*Parked
-	Pass     map[string]bool // sites that never park (external API calls made by the harness)
-	Rng      *rand.Rand
-	Free     bool // free-running: never park
-	UseExt   bool // Settle with the extended quiescence detector (mutex waits count as settled)
-	armMu    sync.Mutex
-	armOp    string // "" | "send" | "close": the next channel operation of that kind (not on the root goroutine) parks inside the operation
-	RootGid  int64
+	Hold *Parked
+	// OnProbeSettled is called by Probe once everything but the parked operation has run as far as it can.
+	OnProbeSettled func(site string)
+	holdExt        bool
+	holdSite       string
+	arrive         chan *Parked
+	Waiting        []*Parked
+	Pass           map[string]bool // sites that never park (external API calls made by the harness)
+	Rng            *rand.Rand
+	Free           bool // free-running: never park
+	UseExt         bool // Settle with the extended quiescence detector (mutex waits count as settled)
+	armMu          sync.Mutex
+	armOp          string // "" | "send" | "close": the next channel operation of that kind (not on the root goroutine) parks inside the operation
+	RootGid        int64
 	// counters
 	Probes     int
 	Releases   int
@@ -198,6 +200,9 @@ func (s *Sched) Probe(kind string, extra []func()) bool {
 			break
 		}
 		s.ReleaseIdxExt(j)
+	}
+	if s.OnProbeSettled != nil && len(s.Waiting) == 1 {
+		s.OnProbeSettled(site) // nothing can move except the operation in progress
 	}
 	for _, f := range extra {
 		go f()
